@@ -130,6 +130,8 @@ type Feed struct {
 	CmdEnds  []int  // byte positions (relative) at which commands end: chunk size 0 means "up to the next command end"
 	Sched    Schedule
 	Sentinel []byte // key of the sentinel SET
+	// SentinelCmd: command name of the sentinel (default "set"); its first argument is Sentinel.
+	SentinelCmd string
 	Timeout  time.Duration
 	// StopAtCrash: as soon as the target crashes the tool is stopped (the process is considered dead).
 	StopAtCrash bool
@@ -152,7 +154,11 @@ func RunSend(ro *syncer.RedisOutput, srv *fake.Server, f Feed) RunResult {
 	var once, conce sync.Once
 	srv.Lock()
 	srv.OnExec = func(e *fake.LogEntry) {
-		if e.Cmd == "set" && len(e.Args) > 0 && string(e.Args[0]) == string(f.Sentinel) {
+		sc := f.SentinelCmd
+		if sc == "" {
+			sc = "set"
+		}
+		if e.Cmd == sc && len(e.Args) > 0 && string(e.Args[0]) == string(f.Sentinel) {
 			once.Do(func() { res.EndSeq = e.Seq; close(endSeen) })
 		}
 	}
